@@ -9,9 +9,10 @@ add("C01", "exploration",
 
 add("C06", "fault_enumeration",
     "For every operation scenario (generic, network, NETCONF; 28 scenarios incl. in-channel login and NETCONF open) the exchange stream is measured by a "
-    "fault-free dry run and the connection is then lost after EVERY byte offset k (EOF; persistent read error), at every write j, and while idle; a monitor "
+    "fault-free dry run and the connection is then lost after EVERY byte offset k (EOF; persistent read error: plain, ETIMEDOUT- and ECONNRESET-style *net.OpError), at every "
+    "write j, and while idle (also right after unsolicited output that ends in a prompt); a monitor "
     "checks prompt error return, no truncated success (result must equal the complete dry-run result), failure of the following operation, and that no "
-    "goroutine panics (worker-process isolation). Exhaustive over k for the listed scenarios and segmentations; nothing beyond them.",
+    "goroutine panics (worker-process isolation); finally the session is closed (hang/panic only). Exhaustive over k for the listed scenarios and segmentations; nothing beyond them.",
     "DESIGN.md §3 C06", "fault injection at every stream offset of real-library sessions over a causal transport model; outcome monitor + process-level panic detection")
 
 add("C15", "exploration",
@@ -24,7 +25,8 @@ add("C15", "exploration",
 add("C05", "fault_enumeration",
     "For every operation scenario (generic, network incl. implicit privilege change, in-channel login, NETCONF open and all 11 RPC methods) the device goes "
     "silent after EVERY byte offset k of the exchange (measured by a fault-free dry run) under the connection-wide timeout and the per-operation override; "
-    "precedence is decided by outcome with a device that resumes; a monitor checks timeout-error class, return within timeout+1.5 s (load canary, retries, "
+    "precedence is decided by outcome with a device that resumes; a slow-then-silent device checks that a single-deadline operation's timeout runs from its start; a goroutine held "
+    "at a yield point past the deadline probes the expiry race; a monitor checks timeout-error class (privilege error exactly when the stall is inside an implicit privilege change), return within timeout+1.5 s (load canary, retries, "
     "else inconclusive), no partial success, no panic/hang, and - when the device model sits at a clean prompt - that the next exchange returns its own result "
     "after the stall is released once no operation goroutine is observed running.",
     "DESIGN.md §3 C05", "stall injection at every stream offset of real-library sessions over a causal transport model; outcome + goroutine-profile monitor")
